@@ -18,19 +18,32 @@ class SubFamily:
         tag = rng.randint(1000, 9999)
         models = []
         par = rng.random() < 0.5
+        nullout = rng.random() < 0.25
+        # the outermost calling act may take the failure itself: a catch for the child's code (or a catch-all), with or
+        # without steps.  The act then completes once its catch has, and its process goes on
+        catch0 = None
+        if rng.random() < 0.25:
+            catch0 = {'steps': [{'id': 'cs0', 'acts': [{'id': 'ca0', 'uses': MSG, 'key': 'caught0'}]}] if rng.random() < 0.6 else []}
+            on = rng.choice(['e7', None, 'e9'])
+            if on:
+                catch0['on'] = on
         for lvl in range(depth + 1):
             mid = f'm{lvl}'
             if lvl < depth:
                 to = f'm{lvl + 1}' if not (missing and lvl == depth - 1) else 'nosuchmodel'
                 call = {'id': f'call{lvl}', 'uses': SUB, 'params': {'to': to, 'options': {'pid': f'p{lvl + 1}', 'x': tag + lvl, 'extra': f'e{lvl}'}}}
+                if nullout:
+                    call['outputs'] = {'y': None, 'z': None}      # z: declared by the child as well, never given a value
+                if lvl == 0 and catch0 is not None:
+                    call['catches'] = [catch0]
                 main = {'id': f's{lvl}', 'acts': [call, {'id': f'after{lvl}', 'uses': MSG, 'key': f'after{lvl}'}]}
                 if lvl == 0 and par:
                     steps = [{'id': 'fork', 'branches': [{'id': 'bcall', 'if': 'true', 'steps': [main]}, {'id': 'bpar', 'if': 'true', 'steps': [{'id': 'spar', 'acts': [{'id': 'apar', 'uses': IRQ, 'key': 'pk'}]}]}]}]
                 else:
                     steps = [main]
-                models.append({'id': mid, 'inputs': {'x': 0, 'y': 0}, 'outputs': {'y': None}, 'steps': steps})
+                models.append({'id': mid, 'inputs': {'x': 0, 'y': 0}, 'outputs': dict({'y': None}, **({'z': None} if nullout else {})), 'steps': steps})
             else:
-                models.append({'id': mid, 'inputs': {'x': 0, 'y': 0}, 'outputs': {'y': None, 'x': None}, 'steps': [{'id': f's{lvl}', 'acts': [{'id': 'leaf', 'uses': IRQ, 'key': 'leaf'}]}]})
+                models.append({'id': mid, 'inputs': {'x': 0, 'y': 0}, 'outputs': dict({'y': None, 'x': None}, **({'z': None} if nullout else {})), 'steps': [{'id': f's{lvl}', 'acts': [{'id': 'leaf', 'uses': IRQ, 'key': 'leaf'}]}]})
         opts_end = {'next': {'y': tag + 500}, 'error': {'ecode': 'e7', 'message': 'child failed'}, 'abort': {}, 'skip': {}}[ending]
         rules = [{'match': {'key': 'leaf'}, 'action': ending, 'options': opts_end}, {'match': {'key': 'pk'}, 'action': 'next'}]
         if rng.random() < 0.5:
@@ -51,7 +64,7 @@ class SubFamily:
             # the whole chain is dropped from the cache while the leaf waits for the client
             sc['faults'] = {'evict_at': sorted(set(rng.randint(1, 3) for _ in range(rng.randint(1, 2))))}
             sc['sched'] += '+evict'
-        return {'scenarios': [sc], 'meta': {'depth': depth, 'missing': missing, 'ending': ending, 'tag': tag, 'par': par}, 'digest': digest([depth, missing, ending, par, rt, mode, rules]), 'nontrivial': True}
+        return {'scenarios': [sc], 'meta': {'depth': depth, 'missing': missing, 'ending': ending, 'tag': tag, 'par': par, 'catch0': catch0, 'nullout': nullout}, 'digest': digest([depth, missing, ending, par, rt, mode, rules, catch0, nullout]), 'nontrivial': True}
 
     def judge(self, c, opts, obs):
         out = []
@@ -79,8 +92,14 @@ class SubFamily:
             is_missing = m['missing'] and lvl == depth - 1
             recs = [e for e in h.states if (e['pid'], e['tid']) == k and e['via'] == 'set']
             terms = [e for e in recs if e['new'] in TERM and e['old'] != e['new']]
+            c0 = m.get('catch0') if lvl == 0 else None
             if is_missing:
-                if t['state'] != 'error':
+                # (the code of this failure is the engine's own: only a catch-all on the act takes it)
+                if c0 is not None and not c0.get('on'):
+                    obs['c15.calls-with-own-catch'] += 1
+                    if t['state'] != 'completed':
+                        out.append(V('C15', 'caught-call-not-completed', f"missing-model:{t['state']}", f"the calling act's own catch-all takes the failure of a call to a missing model, the act is {t['state']}", scenario=sid))
+                elif t['state'] != 'error':
                     out.append(V('C15', 'missing-model-call-not-failed', t['state'], f"call to a missing model left the calling act {t['state']}", scenario=sid))
                 continue
             cstart = [e for e in cbs.get(cpid, []) if e['what'] == 'start']
@@ -116,6 +135,15 @@ class SubFamily:
                 out.append(V('C15', 'child-terminal-events', f"{len(cterm)}:{h.race_tag(cpid)}", f"child {cpid} delivered terminal events {[(e['what'], e['state']) for e in cterm]}", scenario=sid))
             cs = cterm[0]['state']
             want = {'completed': 'completed', 'error': 'error', 'aborted': 'aborted', 'skipped': 'skipped'}.get(cs, 'completed')
+            if cs == 'error' and c0 is not None and c0.get('on') in (None, (cterm[0].get('inputs') or {}).get('ecode')):
+                # the act's own catch takes the child's error: error -> running -> (catch steps) -> completed, and the caller goes on
+                obs['c15.calls-with-own-catch'] += 1
+                if [e['new'] for e in terms] != ['error', 'completed'] or t['state'] != 'completed':
+                    out.append(V('C15', 'caught-call-not-completed', f"child-error:{'+'.join(e['new'] for e in terms) or 'none'}:{t['state']}", f"child {cpid} ended with an error that the calling act's own catch takes: the act went {[e['new'] for e in terms]} and is {t['state']} (expected error, then completed)", scenario=sid))
+                pend = [e for e in cbs.get(ppid, []) if e['what'] != 'start']
+                if [(e['what'], e['state']) for e in pend] != [('complete', 'completed')]:
+                    out.append(V('C15', 'caller-did-not-go-on', f"{'+'.join(e['what'] for e in pend) or 'none'}", f"after the caught failure of its call the caller {ppid} delivered {[(e['what'], e['state']) for e in pend]}", scenario=sid))
+                continue
             if len(terms) != 1:
                 out.append(V('C15', 'call-closed-count', f"{len(terms)}:{'+'.join(e['new'] for e in terms) or 'none'}:{race}", f"calling act call{lvl}: {len(terms)} terminal transitions {[(e['old'], e['new']) for e in terms]} after child ended {cs}", scenario=sid))
                 if not terms:
@@ -129,6 +157,8 @@ class SubFamily:
                 cy = (cterm[0].get('outputs') or {}).get('y')
                 if y != cy:
                     out.append(V('C15', 'child-outputs-not-returned', race, f"child ended with outputs y={cy}, calling act holds y={y}", scenario=sid))
+                if m.get('nullout'):
+                    obs['c15.returns-with-a-null-output'] += 1
             if want == 'error':
                 err = t.get('err') or {}
                 cin = cterm[0].get('inputs') or {}
